@@ -13,7 +13,7 @@ import filemodel
 from common import F
 
 ID = 'C01'
-GEN_SECTIONS = ['GenFile', 'GenDedup', 'FP_file_io']
+GEN_SECTIONS = ['GenFile', 'GenDedup', 'GenScan', 'FP_file_io', 'FP_first_last_scan']
 COQ_TARGETS = ['Props/C01.vo']
 EXTRACT_TARGETS = ['Extract/Ex_file.vo']
 RUNNER = 'file'
@@ -291,6 +291,16 @@ def one_case(ctx, index, want_model=True):
             nz += 1
             ctx.count('edges.first_%s' % ('pos' if v[4] > 0 else 'neg' if v[4] < 0 else 'zero'))
     ctx.count('events.grad_nonzero_edge', nz)
+    ctx.count('reuse.connected_events_reused', getattr(seq, '_gen_reused', 0))
+    tr = 0
+    for k, v in seq.grad_library.data.items():
+        cols = [v[3]] if seq.grad_library.type[k] == 'g' else list(v[1:])
+        tr += sum(1 for x in cols if int(x * 1e6) != round(x * 1e6))
+        if seq.grad_library.type[k] == 'g' and v[3] != 0:
+            ctx.count('timecols.grad_delay_nonzero')
+    tr += sum(1 for v in seq.adc_library.data.values() if int(v[2] * 1e6) != round(v[2] * 1e6) or int(v[1] * 1e9) != round(v[1] * 1e9))
+    tr += sum(1 for v in seq.trigger_library.data.values() if any(int(x * 1e6) != round(x * 1e6) for x in v[2:]))
+    ctx.count('timecols.truncation_differs_from_rounding', tr)
     ok = oracle(ctx, case, seq, s2, sysw)
     if index % 40 == 0:
         ctx.sample({'case': case, 'file_chars': len(text), 'oracle_ok': ok, 'head': text[:200]})
@@ -310,9 +320,17 @@ def flush(ctx, pend):
     for p in pend:
         lines.append(filemodel.encode_write(p['state']))
         lines.append(filemodel.encode_read(p['tok'], p['sysr']))
+        p['scan_lib'], blocks = filemodel.scan_inputs(p['s3'])
+        lines.append(filemodel.encode_scan(p['scan_lib'], blocks))
     outs = ctx.model(lines)
     for i, p in enumerate(pend):
-        ow, orr = outs[2 * i], outs[2 * i + 1]
+        ow, orr, osc = outs[3 * i], outs[3 * i + 1], outs[3 * i + 2]
+        if osc.startswith(('EXC', 'UNKNOWN')):
+            ctx.mismatch('model-error', p['case'], {'scan': osc[:200]})
+        else:
+            bad = filemodel.compare_scan(osc, p['s3'], p['scan_lib'])
+            if bad:
+                ctx.mismatch('scan', p['case'], bad)
         if ow.startswith(('EXC', 'UNKNOWN')) or orr.startswith(('EXC', 'UNKNOWN')):
             ctx.mismatch('model-error', p['case'], {'write': ow[:200], 'read': orr[:200]})
             continue
